@@ -122,6 +122,9 @@ class CusumModel(_Flat):
         # expression is representable with that many bits - sticky within an epoch, because the sums carry
         # earlier rounding along.
         self.bits = None
+        # power-of-two unit of the data family (scale families 2^-30 / 2^27): multiplying every number by a power of
+        # two changes no significand, so the small-dyadic-grid argument of ``_window_ok`` holds in multiples of it
+        self.unit = Fraction(1)
         self.ex_epoch = True
         self.est_ok = True
         # bookkeeping about the last step (read by the check for its counters)
@@ -130,7 +133,9 @@ class CusumModel(_Flat):
     def _window_ok(self, window):
         """Estimated statistics are computed exactly by numpy's float64 mean / std (given that the results are
         dyadic, which ``_exact`` checks) when the window lies on a small dyadic grid: multiples of 1/16 up to
-        1024 in magnitude, at most 32 of them - sums, deviations and their squares then need < 53 bits."""
+        1024 in magnitude, at most 32 of them - sums, deviations and their squares then need < 53 bits.  The grid
+        is in multiples of ``self.unit`` (a power of two; 1 for every family but the power-of-two scale families)."""
+        window = [v / self.unit for v in window]
         return (
             self.bits == 53
             and len(window) <= 32
